@@ -431,6 +431,8 @@ def cell_source(c: Cell, rng) -> str:
         decls, body = f"const k{N} = {LIT}", f"var v {T} = k{N}"
     elif ctx == "const_typed":
         decls, body = f"const k{N} {T} = {LIT}", f"v := k{N}"
+    elif ctx == "conv_named_const":
+        decls, body = f"type e{N} string\n\nconst k{N} e{N} = {LIT}", f"v := string(k{N})"
     elif ctx == "array_len_lit":
         decls, body = f"var a{N} [len({TLIT})]byte", f"v := len(a{N})"
         ret = "return []byte{byte(v & 255), byte(v >> 8)}"
